@@ -569,6 +569,29 @@ func c04Windows(c *core.Ctx) {
 		}
 		k.Count("nested_other_swept", 1)
 	})
+	// pairs of type-like fields swept together: EAP Expanded Vendor-Id x Vendor-Type (RFC 3748 5.7 gives Vendor-Id 0 a
+	// meaning of its own), EAP code x method type, notify protocol id x SPI size x type class
+	c.Family("win-type-pairs", 12, func(k *core.Case) {
+		e := env(k)
+		vids := [][]byte{{0, 0, 0}, {0, 0x28, 0xaf}, {0xff, 0xff, 0xff}, {0, 0, 1}, {0x80, 0, 0}}
+		vid := vids[k.Index%len(vids)]
+		for vt := 0; vt <= 260; vt++ {
+			for _, hi := range []byte{0, 1, 0xff} {
+				if hi != 0 && vt > 8 {
+					continue
+				}
+				for _, dl := range []int{0, 1, 2, 4, 9} {
+					body := append([]byte{254, vid[0], vid[1], vid[2], hi, 0, byte(vt >> 8), byte(vt)}, k.R.Bytes(dl)...)
+					for _, code := range []byte{1, 2} {
+						pkt := append([]byte{code, 7, 0, byte(4 + len(body))}, body...)
+						c04Body(k, e, abs.PEAP, pkt, fmt.Sprintf("type-pairs/vid=%x/vt=%s/dl=%d", vid, smallCell(vt), dl), vt%64 == 13 && dl == 2)
+					}
+					c04Probe(k, methodEntries[4], body, nil, fmt.Sprintf("type-pairs/method-body/vid=%x/vt=%s", vid, smallCell(vt)))
+				}
+			}
+		}
+		k.Count("vendor_id_x_vendor_type_pairs_swept", 1)
+	})
 	// text-shaped bodies: FQDN / RFC 822 / NAI edge cases under every ID type, as EAP identities and network names
 	c.Family("win-names", 64, func(k *core.Case) {
 		e := env(k)
@@ -1130,7 +1153,7 @@ func c04(c *core.Ctx) {
 		c.Count("hook_hits_"+s, int(atomic.LoadInt64(&siteHits[i])))
 	}
 	if variant() == "plain" {
-		c.Require("name_edge_cases_decoded", "one_key_object_served_all_datagrams", "nested_notify_types_swept", "nested_other_swept", "hook_hits_message.container.decode", "hook_hits_message.sa.proposal", "hook_hits_message.sa.transform", "hook_hits_message.delete.spi",
+		c.Require("vendor_id_x_vendor_type_pairs_swept", "name_edge_cases_decoded", "one_key_object_served_all_datagrams", "nested_notify_types_swept", "nested_other_swept", "hook_hits_message.container.decode", "hook_hits_message.sa.proposal", "hook_hits_message.sa.transform", "hook_hits_message.delete.spi",
 			"hook_hits_message.cp.attribute", "hook_hits_message.tsi.selector", "hook_hits_message.tsr.selector", "hook_hits_eap.akaprime.attribute", "hook_hits_ike.decrypt.verified")
 	}
 }
